@@ -161,6 +161,7 @@ class SimFile:
                 d.dead = True
             raise SimCrash("torn write %d/%d on %s" % (k, len(data), self.path))
         d.files[self.path].extend(data)
+        d.touch(self.path)
 
     def write(self, data):
         if self.closed:
@@ -217,6 +218,8 @@ class SimDisk:
         self.seams = seams_ref
         self.cwd = cwd
         self.files = {}                  # normalised path -> bytearray (committed = survives process death)
+        self.mtimes = {}                 # normalised path -> modification stamp (monotone counter, not wall time)
+        self._stamp = 0
         self.dirs = {""}
         self.dead = False
         self.bufsize = bufsize
@@ -226,6 +229,24 @@ class SimDisk:
 
     def bump(self, k):
         self.counts[k] = self.counts.get(k, 0) + 1
+
+    def touch(self, p):
+        self._stamp += 1
+        self.mtimes[p] = 1.0e9 + self._stamp
+
+    def getmtime(self, path):
+        p = _norm(path, self.cwd)
+        if p not in self.files and p not in self.dirs:
+            raise FileNotFoundError(errno.ENOENT, "No such file or directory", str(path))
+        return self.mtimes.get(p, 1.0e9)
+
+    def stat(self, path, *a, **k):
+        p = _norm(path, self.cwd)
+        if p not in self.files and p not in self.dirs:
+            raise FileNotFoundError(errno.ENOENT, "No such file or directory", str(path))
+        import types
+        return types.SimpleNamespace(st_mtime=self.mtimes.get(p, 1.0e9), st_size=len(self.files.get(p, b"")),
+                                     st_mtime_ns=int(self.mtimes.get(p, 1.0e9) * 1e9), st_mode=0o100644 if p in self.files else 0o040755)
 
     # ---- builtin open ---------------------------------------------------
     def open(self, path, mode="r", *args, **kw):
@@ -240,16 +261,19 @@ class SimDisk:
             if mode == "rb":
                 return io.BytesIO(data)
             return io.StringIO(data.decode("utf-8"))
-        if mode in ("wb", "w", "wt"):
+        if mode in ("wb", "w", "wt", "xb", "x", "xt"):
             if s is not None:
                 s.seam("disk:open:w:pre", p, write_path=True)
             parent = posixpath.dirname(p)
             if parent not in self.dirs:
                 raise FileNotFoundError(errno.ENOENT, "No such file or directory", str(path))
+            if mode[0] == "x" and (p in self.files or p in self.dirs):
+                raise FileExistsError(errno.EEXIST, "File exists", str(path))
             if p in self.dirs:
                 raise IsADirectoryError(errno.EISDIR, "Is a directory", str(path))
             self.files[p] = bytearray()           # O_TRUNC happens at open
-            fh = SimFile(self, p, mode != "wb", self.bufsize)
+            self.touch(p)
+            fh = SimFile(self, p, mode not in ("wb", "xb"), self.bufsize)
             if s is not None:
                 s.seam("disk:open:w:post", p)
             return fh
@@ -306,6 +330,7 @@ class SimDisk:
         if posixpath.dirname(b_) not in self.dirs:
             raise FileNotFoundError(errno.ENOENT, "No such file or directory", str(dst))
         self.files[b_] = self.files.pop(a_)       # atomic
+        self.mtimes[b_] = self.mtimes.pop(a_, 1.0e9)
         if self.on_commit is not None:
             self.on_commit(b_)
         if s is not None:
@@ -361,6 +386,9 @@ class _PathShim:
     def getsize(self, p):
         return self._d.getsize(p)
 
+    def getmtime(self, p):
+        return self._d.getmtime(p)
+
     def abspath(self, p):
         return posixpath.normpath(posixpath.join(self._d.cwd, _real_os.fspath(p)))
 
@@ -401,6 +429,9 @@ class OsShim:
 
     def getcwd(self):
         return self._d.cwd
+
+    def stat(self, *a, **k):
+        return self._d.stat(*a, **k)
 
     def fsync(self, fd):
         s = self._d.seams()
